@@ -198,3 +198,18 @@ package guardiand
 //@   nonblocking
 //@   ensures [queued-or-refused-at-once] (err == nil && nsent(s.obsvReqSendC) == old(nsent(s.obsvReqSendC)) + 1 && lastsent(s.obsvReqSendC) == req.ObservationRequest) || (err != nil && nsent(s.obsvReqSendC) == old(nsent(s.obsvReqSendC)))
 //@   modifies chan:*gossipv1.ObservationRequest, fresh nodev1.SendObservationRequestResponse.*
+
+// ---------------------------------------------------------------- the routing table handed to the dispatcher (C17)
+
+// runNode is start-up code the engine does not execute; what C17 needs from it is the shape
+// of four hand-offs, stated on the source text: every queue registered in the routing table
+// is a fresh channel of its own, the dispatcher is started on that table and on the inbound
+// request queue, and each watcher is constructed with the queue registered under the chain id
+// it is constructed for.
+//@ func runNode(cmd *cobra.Command, args []string)
+//@   props C17
+//@   assume-contract
+//@   fresh-elements chainObsvReqC
+//@   wiring handleReobservationRequests: $arg3 $arg4 == obsvReqC chainObsvReqC
+//@   wiring ethereum.NewEthWatcher: $arg7 == chainObsvReqC[$arg4]
+//@   wiring alephium.NewAlephiumWatcher: $arg6 == chainObsvReqC[vaa.ChainIDAlephium]
